@@ -8,10 +8,12 @@ vars == <<c, run, l, T, bad>>
 
 Params ==
   {p \in [rw : 1..MaxRW, rh : 1..MaxRH, l : 0..MaxPad, t : 0..MaxPad, r : 0..MaxPad, b : 0..MaxPad,
-          frames : 1..MaxFrames, loops : 1..MaxLoops, tty : BOOLEAN, cols : {MaxRW + 2 * MaxPad},
+          frames : 1..MaxFrames, loops : 1..MaxLoops, tty : BOOLEAN, fill : BOOLEAN,
+          cols : {MaxRW + 2 * MaxPad},
           rows : {MaxRH + 2 * MaxPad + 1}, r0 : 0..(MaxRH + 2 * MaxPad)] :
      /\ (p.frames = 1 => p.loops = 1)
      /\ (p.l + p.t + p.r + p.b <= 2)            \* at most two padded sides at a time
+     /\ (~p.fill => p.tty /\ p.l + p.t + p.r + p.b > 0)   \* empty fill only matters with padding
      /\ p.r0 \in {0, p.rows - PH(p) - 1, p.rows - PH(p), p.rows - 1}}
 
 \* run = [kind |-> "clean"] or [kind |-> "cut", k, p]
@@ -36,7 +38,8 @@ StepOK(S) ==
 EndsBelow(S) ==
   /\ AbsRow(S) = c.r0 + PH(c) /\ S.c = 0 /\ S.vis /\ S.scrolls = Needed(c)
   /\ \A q \in InnerOf(c) : q \in DOMAIN S.cells /\ S.cells[q].g = "ch" /\ S.cells[q].ch = LastLetter(c)
-  /\ \A q \in BoxOf(c) \ InnerOf(c) : q \in DOMAIN S.cells /\ S.cells[q].g = "sp"
+  /\ \A q \in BoxOf(c) \ InnerOf(c) :
+        IF c.fill THEN q \in DOMAIN S.cells /\ S.cells[q].g = "sp" ELSE q \notin DOMAIN S.cells
 
 \* after an interrupted run: cursor visible (if it was hidden at all), nothing outside the box
 RestoredAfterCut(S) == S.vis /\ Touched(S) \subseteq BoxOf(c) /\ S.err = ""
